@@ -103,7 +103,7 @@ var nilArgCases = []string{
 	"verifier.NewOCIVerifierFromConfig:empty-config-dir", "verifier.NewBlobVerifierFromConfig:empty-config-dir",
 	"verifier.Verify:zero-descriptor", "verifier.VerifyBlob:failing-descriptor-generator", "verifier.Verify:nil-maps-and-empty-options",
 	"VerificationOutcome.UserMetadata:zero-outcome", "VerificationOutcome.UserMetadata:non-json-payload", "VerificationOutcome.UserMetadata:null-payload",
-	"signer.NewPluginSigner:nil-plugin", "signer.NewPluginSigner:empty-key-id", "signer.PluginSigner.Sign:plugin-returning-nil-responses",
+	"signer.NewPluginSigner:nil-plugin", "signer.NewPluginSigner:empty-key-id",
 	"plugin.NewCLIPlugin:missing-file", "plugin.NewCLIPlugin:directory", "plugin.CLIManager.Get:empty-name", "plugin.CLIManager.List:missing-directory",
 	"crl.NewFileCache:get-missing", "crl.FileCache.Set:nil-bundle", "crl.FileCache.Get:directory-at-entry",
 	"registry.NewOCIRepository:missing-path", "registry.NewOCIRepository:file-path", "registry.NewOCIRepository:empty-directory",
